@@ -60,12 +60,12 @@ Definition watch_filter (exts : option (list bytes)) (p : bytes) : bool :=
   negb (tmp_editor_path p) && negb (in_work_dir p) && matches_extensions exts p.
 
 (* ---- the directory of a watched FILE (repair D16: watcher.rs is_other_file_in_file_dir) ----
-   Path equality and Path::parent() in Rust go by components: RootDir, a leading CurDir, Normal and ParentDir components.
-   pkey p = (has a root, starts with a CurDir component, the Normal/ParentDir components). *)
-Definition pkey (p : bytes) : bool * bool * list bytes :=
+   Path equality, Path::starts_with and Path::parent() in Rust go by components: RootDir, a leading CurDir, Normal and ParentDir
+   components.  pseq p = that sequence: [slash] stands for RootDir and [dot] for CurDir (no Normal component is "/" or "."). *)
+Definition pseq (p : bytes) : list bytes :=
   let root := starts_with p [slash] in
   let cur := negb root && match split_on slash p with c :: _ => beq c [dot] | [] => false end in
-  (root, cur, components p).
+  (if root then [[slash]] else []) ++ (if cur then [[dot]] else []) ++ components p.
 
 Fixpoint lbeq (a b : list bytes) : bool :=
   match a, b with
@@ -74,25 +74,29 @@ Fixpoint lbeq (a b : list bytes) : bool :=
   | _, _ => false
   end.
 
-Definition pkey_eqb (a b : bool * bool * list bytes) : bool :=
-  let '(r1, c1, l1) := a in let '(r2, c2, l2) := b in Bool.eqb r1 r2 && Bool.eqb c1 c2 && lbeq l1 l2.
-
-(* Path::parent(): the path without its last component; None for "/" and "" *)
-Definition parent_key (k : bool * bool * list bytes) : option (bool * bool * list bytes) :=
-  let '(root, cur, l) := k in
-  match rev l with
-  | _ :: r => Some (root, cur, rev r)
-  | [] => if cur then Some (false, false, []) else None
+(* Path::starts_with: component-wise prefix *)
+Fixpoint lprefix (a b : list bytes) : bool :=
+  match a, b with
+  | [], _ => true
+  | x :: a', y :: b' => beq x y && lprefix a' b'
+  | _ :: _, [] => false
   end.
 
-(* files = the declared paths that are watched as files (each with a parent) *)
-Definition other_in_file_dir (files : list bytes) (p : bytes) : bool :=
-  negb (existsb (fun f => pkey_eqb (pkey f) (pkey p)) files) &&
-  existsb (fun f => match parent_key (pkey f), parent_key (pkey p) with
-                    | Some d, Some q => pkey_eqb q d
+(* Path::parent(): the path without its last component; None for "/" and "" *)
+Definition parent_seq (q : list bytes) : option (list bytes) :=
+  match rev q with
+  | [] => None
+  | c :: r => if beq c [slash] then None else Some (rev r)
+  end.
+
+(* declared = every path of the watcher's group; files = those watched as files (their directories are watched too) *)
+Definition other_in_file_dir (declared files : list bytes) (p : bytes) : bool :=
+  existsb (fun f => match parent_seq (pseq f), parent_seq (pseq p) with
+                    | Some d, Some q => lbeq q d
                     | _, _ => false
-                    end) files.
+                    end) files &&
+  negb (existsb (fun w => lprefix (pseq w) (pseq p)) declared).
 
 (* the conjunction evaluated by the notify callback after the repair *)
-Definition watch_filter2 (files : list bytes) (exts : option (list bytes)) (p : bytes) : bool :=
-  negb (other_in_file_dir files p) && watch_filter exts p.
+Definition watch_filter2 (declared files : list bytes) (exts : option (list bytes)) (p : bytes) : bool :=
+  negb (other_in_file_dir declared files p) && watch_filter exts p.
